@@ -7,12 +7,14 @@ A case (JSON):
   tie      "events" | "timers" (order of scripted events vs timers at equal instants)
   conn     {"k": "ok"|"status"|"error"|"hang", "at": tick, "code": int}     GET /sse outcome
   chunks   [[tick, hex], ...]      bytes released on the GET stream at absolute ticks
+  bounds   [byte offsets]          ends of complete events in the scripted bytes (a response event is
+                                   only written at such a boundary, as a real server would)
   close    tick | null             the server ends the GET stream at that tick
-  reqs     [{"id": str, "at": tick (written to the write stream),
+  reqs     [{"id": str, "at": ticks after entering (written to the write stream),
              "post": {"k": "200"|"202"|"status"|"exc", "d": ticks after the POST was received,
                       "code": int, "body": "json"|"text"|"empty"|"rpc"|"detail"},
              "ev": null | {"d": ticks after the POST was received, "cuts": [byte offsets], "gap": ticks}}]
-  exit     {"k": "normal"|"exception"|"cancel-asyncio"|"cancel-anyio", "at": tick}
+  exit     {"k": "normal"|"exception"|"cancel-asyncio"|"cancel-anyio", "at": ticks after entering}
 
 Everything scripted is injected by the loop (`loop.at`), never by timer tasks.
 """
@@ -27,6 +29,42 @@ from . import vloop
 
 class Boom(Exception):
     pass
+
+
+class Deadlock(BaseException):
+    pass
+
+
+class GuardedLoop(vloop.VirtualLoop):
+    """VirtualLoop that refuses to block forever: when nothing is runnable, no timer is pending
+    and no scripted event is left, nothing can ever happen again (there is no real I/O in these
+    runs) — the pending awaits are a deadlock of the code under test."""
+
+    deadlock = None
+
+    def _run_once(self):
+        if not self._ready and not self._script and not any(not h._cancelled for h in self._scheduled):
+            pend = sorted(getattr(t.get_coro(), "__qualname__", "?") for t in asyncio.all_tasks(self) if not t.done())
+            if self.deadlock is None:
+                self.deadlock = pend
+            raise Deadlock(",".join(pend))
+        super()._run_once()
+
+
+def guarded_run(main, tie="events"):
+    import anyio
+    holder = {}
+
+    def factory():
+        loop = GuardedLoop()
+        loop.tie = tie
+        holder["loop"] = loop
+        return loop
+    try:
+        anyio.run(main, backend="asyncio", backend_options={"loop_factory": factory})
+    except Deadlock:
+        pass
+    return holder["loop"].deadlock
 
 
 def rpc_result(rid, tag):
@@ -96,6 +134,58 @@ def run_case(case):
                 self.closed = True
 
         sse_stream = ScriptedStream()
+
+        class Writer:
+            """The server's single byte stream: scripted (static) chunks are released in order at
+            their ticks; a response event (dynamic) is written only between two complete static
+            events and is never interleaved with anything else."""
+
+            def __init__(self, bounds):
+                self.bounds = set(bounds) | {0}
+                self.pos = 0
+                self.busy = False
+                self.static = collections.deque()
+                self.dynamic = collections.deque()
+
+            def release_static(self, b):
+                self.static.append(b)
+                self.pump()
+
+            def write_event(self, pieces, gap):
+                self.dynamic.append((pieces, gap))
+                self.pump()
+
+            def pump(self):
+                while not self.busy:
+                    if self.static and (self.pos not in self.bounds or not self.dynamic):
+                        b = self.static.popleft()
+                        if b is not None:
+                            self.pos += len(b)
+                        sse_stream.push(b)
+                    elif self.dynamic and self.pos in self.bounds:
+                        pieces, gap = self.dynamic.popleft()
+                        self.busy = True
+                        now = loop.ticks
+                        for i, piece in enumerate(pieces):
+                            last = i == len(pieces) - 1
+                            if i == 0:
+                                sse_stream.push(piece)
+                                if last:
+                                    self.busy = False
+                            else:
+                                loop.at(now + i * gap, self._piece(piece, last))
+                    else:
+                        return
+
+            def _piece(self, piece, last):
+                def f():
+                    sse_stream.push(piece)
+                    if last:
+                        self.busy = False
+                        self.pump()
+                return f
+
+        writer = Writer(case.get("bounds", []))
         conn = case.get("conn") or {"k": "ok", "at": 0}
         reqs = {r["id"]: r for r in case.get("reqs", [])}
 
@@ -119,9 +209,9 @@ def run_case(case):
                 if conn["k"] == "status":
                     return httpx.Response(conn["code"], text="scripted status")
                 for tick, hx in case.get("chunks", []):
-                    loop.at(max(tick, loop.ticks), (lambda b: (lambda: sse_stream.push(b)))(bytes.fromhex(hx)))
+                    loop.at(max(tick, loop.ticks), (lambda b: (lambda: writer.release_static(b)))(bytes.fromhex(hx)))
                 if case.get("close") is not None:
-                    loop.at(max(case["close"], loop.ticks), lambda: sse_stream.push(None))
+                    loop.at(max(case["close"], loop.ticks), lambda: writer.release_static(None))
                 given.append(loop.ticks)
                 return httpx.Response(200, headers={"content-type": "text/event-stream"}, stream=sse_stream)
             # POST
@@ -136,13 +226,20 @@ def run_case(case):
                 return httpx.Response(202, text="Accepted")
             now = loop.ticks
             ev = r.get("ev")
-            if ev is not None:
-                data = sse_event_bytes(rpc_result(rid, "ev"), ev.get("event", "message"))
-                pieces = cut_bytes(data, ev.get("cuts", []))
-                for i, piece in enumerate(pieces):
-                    loop.at(now + ev["d"] + i * ev.get("gap", 0), (lambda b: (lambda: sse_stream.push(b)))(piece))
             post = r["post"]
-            await at_future(now + post["d"])
+
+            def sched_event():
+                if ev is not None:
+                    data = sse_event_bytes(rpc_result(rid, "ev"), "message" if ev.get("typed", True) else None)
+                    pieces = cut_bytes(data, ev.get("cuts", []))
+                    loop.at(now + ev["d"], lambda: writer.write_event(pieces, ev.get("gap", 0)))
+            if ev is not None and ev.get("after_post_at_tie"):
+                done = at_future(now + post["d"])
+                sched_event()
+            else:
+                sched_event()
+                done = at_future(now + post["d"])
+            await done
             k = post["k"]
             if k == "exc":
                 raise httpx.ReadError("scripted POST failure", request=request)
@@ -172,6 +269,7 @@ def run_case(case):
 
         httpx.AsyncClient = PatchedClient
         reader_task = None
+        canceller = []
         ex = case.get("exit") or {"k": "normal", "at": 0}
 
         async def reader(rs):
@@ -201,9 +299,14 @@ def run_case(case):
                             except Exception as e:  # closed already: the request is simply not sent
                                 obs.setdefault("write_errors", []).append(type(e).__name__)
                         return f
+                    t0 = loop.ticks
+                    if canceller:
+                        loop.at(t0 + ex["at"], canceller[0])
                     for r in case.get("reqs", []):
-                        loop.at(max(r["at"], loop.ticks), writer(r))
-                    await at_future(ex["at"])
+                        loop.at(t0 + r["at"], writer(r))
+                    if canceller:
+                        await loop.create_future()  # until cancelled from outside
+                    await at_future(t0 + ex["at"])
                     obs["exit_t"] = loop.ticks
                     if ex["k"] == "exception":
                         raise Boom()
@@ -218,14 +321,14 @@ def run_case(case):
         try:
             if ex["k"] == "cancel-asyncio":
                 t = asyncio.create_task(session())
-                loop.at(ex["at"], t.cancel)
+                canceller.append(t.cancel)
                 try:
                     await t
                 except asyncio.CancelledError:
                     obs["cancelled"] = True
             elif ex["k"] == "cancel-anyio":
                 with anyio.CancelScope() as scope:
-                    loop.at(ex["at"], scope.cancel)
+                    canceller.append(scope.cancel)
                     await session()
                 obs["cancelled"] = scope.cancelled_caught
             else:
@@ -274,8 +377,19 @@ def run_case(case):
 
         return None
 
+    import httpx as _httpx
+    real_client = _httpx.AsyncClient
     try:
-        vloop.run(main, tie=case.get("tie", "events"))
+        dl = guarded_run(main, tie=case.get("tie", "events"))
+        if dl is not None:
+            # the code under test waits for something that can never happen
+            obs["deadlock"] = [x for x in dl if "run_case" not in x]
+            obs.pop("after", None)
+            obs.pop("left_t", None)
     except BaseException as e:  # harness failure, not an observation
         obs["harness_errors"].append(repr(e)[:300])
+    finally:
+        _httpx.AsyncClient = real_client
+        obs.pop("rs", None)
+        obs.pop("ws", None)
     return obs
